@@ -15,6 +15,13 @@ def Forest.findVar : List Str → Forest → Option VarRec
   | p :: q :: ps, .group n kids rest =>
     if n == p then Forest.findVar (q :: ps) kids else Forest.findVar (p :: q :: ps) rest
 
+/-- `dataset["/g/h/name"]` (`DatasetType._getitem_string` on a full path, since fix 3e19517): the path is split at
+    `/`, every component is looked up under its **quoted** name (`current[part]` → `_dict[_quote(part)]`), and what
+    the path ends on is returned.  So a variable is found under its declared names (`/g h/a.b`), under its stored
+    names (`/g%20h/a%2Eb`) and under any mix of the two.  (Before the fix the last component was compared
+    unquoted with the stored keys and the function fell off its loop: `ds["/g/a.b"]` was `None`.) -/
+def getitemPath (fq : Str) (t : Forest) : Option VarRec := Forest.findVar ((pathParts fq).map quoteName) t
+
 /-- the dataset tree after `dmr_to_dataset` -/
 def datasetTree (root : XNode) : Except Err Forest := do
   let recs ← parseVars root
